@@ -28,6 +28,14 @@ let norm_got got =
 
 let fid asis got = "asis=" ^ if split_ws asis = norm_got got then "same" else "diff"
 
+(* round 3: TWO as-is models must reproduce the answer - the value-level instance (ModRingInst.v) and the second
+   instance (ModRingConvInst.v: multi-word rings on word lists with the real kernels of C01 / C02, one- and two-word
+   rings with num-modular as transcribed); path= says which half of the second instance ran *)
+let fid2 asis asis2 got =
+  "asis=" ^ (if split_ws asis = norm_got got && split_ws asis2 = norm_got got then "same" else "diff")
+
+let path_s m = if Zar.geq m (Zar.shift_left Zar.one 128) then "path=words" else "path=nm"
+
 let kind_s m =
   match i_new Zar.zero m with
   | Ok r -> (match r_kind r with KSingle -> "single" | KDouble -> "double" | KLarge -> "large")
@@ -43,42 +51,48 @@ let judge op args got =
   let zero = Zar.zero and one = Zar.one in
   let verdict ?(nt = true) m want asis =
     expect ~nt ~extra:(fid asis got ^ " cls=" ^ kind_s m) want got in
+  let verdict2 ?(nt = true) m want asis asis2 =
+    expect ~nt ~extra:(fid2 asis asis2 got ^ " cls=" ^ kind_s m ^ " " ^ path_s m) want got in
   match op with
   | "reduce" ->
       let m = a 2 and x = a 3 in
       let x = if s 0 = "bool" then (if Zar.sign x = 0 then zero else one) else x in
-      verdict m ("ok " ^ hx (reduce_spec m x) ^ " " ^ hx m)
+      verdict2 m ("ok " ^ hx (reduce_spec m x) ^ " " ^ hx m)
         (render (fun (v, md) -> hx v ^ " " ^ hx md) (run_reduce m x))
+        (render (fun (v, md) -> hx v ^ " " ^ hx md) (hrun_reduce m x))
   | "add" | "sub" | "mul" | "div" ->
       let m = a 2 and x = a 3 and y = a 4 in
       let o = binop_of op in
-      verdict m (render (fun v -> hx v ^ " " ^ hx m) (bin_spec o m x y))
+      verdict2 m (render (fun v -> hx v ^ " " ^ hx m) (bin_spec o m x y))
         (render (fun v -> hx v ^ " " ^ hx m) (run_bin o zero zero m m x y))
+        (render (fun v -> hx v ^ " " ^ hx m) (hrun_bin o m x y))
   | "neg" ->
       let m = a 2 and x = a 3 in
-      verdict m ("ok " ^ hx (un_spec ONeg m x)) (render hx (run_un ONeg m x))
+      verdict2 m ("ok " ^ hx (un_spec ONeg m x)) (render hx (run_un ONeg m x)) (render hx (hrun_un ONeg m x))
   | "dbl" | "sqr" ->
       let m = a 1 and x = a 2 in
       let o = unop_of op in
-      verdict m ("ok " ^ hx (un_spec o m x)) (render hx (run_un o m x))
+      verdict2 m ("ok " ^ hx (un_spec o m x)) (render hx (run_un o m x)) (render hx (hrun_un o m x))
   | "pow" ->
       let m = a 1 and x = a 2 and e = a 3 in
-      verdict m ("ok " ^ hx (powm m x e)) (render hx (run_pow m x e))
+      verdict2 m ("ok " ^ hx (powm m x e)) (render hx (run_pow m x e)) (render hx (hrun_pow m x e))
   | "inv" ->
       let m = a 1 and x = a 2 in
       (* the specification is the predicate inv_ok (the inverse is unique, so this also fixes the value) *)
       let asis = render (opt_s hx) (run_inv m x) in
+      let asis2 = render (opt_s hx) (hrun_inv m x) in
       let ok = (match got with
         | [ "ok"; "none" ] -> inv_ok m x None
         | [ "ok"; "some"; v ] -> inv_ok m x (Some (z v))
         | _ -> false) in
-      if ok then pass ~extra:(fid asis got ^ " cls=" ^ kind_s m) () else fail ("ok " ^ opt_s hx (inv_spec m x))
+      if ok then pass ~extra:(fid2 asis asis2 got ^ " cls=" ^ kind_s m ^ " " ^ path_s m) () else fail ("ok " ^ opt_s hx (inv_spec m x))
   | "eq" ->
       let m = a 1 and x = a 2 and y = a 3 in
-      verdict m ("ok " ^ b2s (Zar.equal (reduce_spec m x) (reduce_spec m y))) (render b2s (run_eq zero zero m m x y))
+      verdict2 m ("ok " ^ b2s (Zar.equal (reduce_spec m x) (reduce_spec m y))) (render b2s (run_eq zero zero m m x y))
+        (render b2s (hrun_eq m x y))
   | "cl" ->
       let m = a 1 and x = a 2 in
-      verdict m ("ok " ^ hx (dbl_spec m x)) (render hx (run_un ODbl m x))
+      verdict2 m ("ok " ^ hx (dbl_spec m x)) (render hx (run_un ODbl m x)) (render hx (hrun_un ODbl m x))
   | "mix" ->
       (* two ConstDivisor instances, whatever their moduli: the documented panic *)
       let m1 = a 1 and m2 = a 2 and x = a 3 and y = a 4 in
@@ -89,6 +103,9 @@ let judge op args got =
       (* division computes the inverse first: a non-invertible divisor is reported before the ring check *)
       let want = if base = "div" && inv_spec m2 y = None then "panic NonInvertible" else "panic DifferentRings" in
       verdict m1 want asis
+  | "new0" ->
+      (* ConstDivisor::new(0) / from_word(0) / from_dword(0): the documented panic; the model: new_ring of 0 *)
+      expect ~extra:(fid (render (fun _ -> "ring") (i_new zero zero)) got ^ " cls=zero") "panic DivideBy0" got
   | "r_modulus" -> let m = a 0 in verdict m ("ok " ^ hx m) (render hx (run_rd_modulus m))
   | "r_check" ->
       let m = a 0 and t = a 1 in
@@ -106,9 +123,14 @@ let judge op args got =
         | "r_dbl" -> RDbl, dbl_spec m x | "r_neg" -> RNeg, neg_spec m x | "r_sqr" -> RSqr, sqr_spec m x
         | _ -> RPow, powm m x y) in
       let asis = render triple_s (run_rd true o m x y) in
+      (* the raw form of transform as the second instance computes it (word lists / num-modular transcribed) *)
+      let raw2_ok = (match op, got with
+        | "r_transform", [ "ok"; _; _; raw ] -> (match hrun_transform m x with Ok t -> hx t = raw | _ -> false)
+        | _ -> true) in
+      let f = if raw2_ok then fid asis got else "asis=diff" in
       (* demanded: the residue, and that the result is a valid reduced form; the raw form is observed only *)
       (match got with
-       | [ "ok"; r; "1"; _ ] when r = hx res -> pass ~extra:(fid asis got ^ " cls=" ^ kind_s m) ()
+       | [ "ok"; r; "1"; _ ] when r = hx res -> pass ~extra:(f ^ " cls=" ^ kind_s m ^ (if op = "r_transform" then " " ^ path_s m else "")) ()
        | _ -> fail ("ok " ^ hx res ^ " 1 <raw>"))
   | "r_inv" ->
       let m = a 0 and x = a 1 in
